@@ -121,6 +121,16 @@ def rule_dispatcher_stamp(ctx, rid="R6.3"):
     cfg = cfg_of(disp)
     r = ctx.rule(rid, "the dispatcher stamps each error with the key and value of the same table entry, the instance and the schema in hand; "
                       "the keyword is prepended to schema_path except for if/$ref", floor=4)
+    sem = c02._valsem(ctx, "dispatch_eval")
+    if sem is not None:
+        if sem["stamp"] is None and sem["all-errors"] is None:
+            r.ok(site(disp) + " [fields]", "validator, validator_value, instance, schema are those of the dispatching entry")
+            r.ok(site(disp) + " [innermost wins]", "fields the keyword function set itself are kept")
+            r.ok(site(disp) + " [schema_path]", "the keyword is prepended, except for `if` and `$ref`")
+            r.ok(site(disp) + " [arguments]", "keyword function called with (validator, value, instance, schema)")
+        else:
+            r.fail("%s|_set-args|semantic" % disp.qual, site(disp), sem["stamp"] or sem["all-errors"])
+        return r
     loop, dnode, dcall = c02.keyword_loop(prog, disp)
     tgt = loop.ast.target
     if not (isinstance(tgt, ast.Tuple) and len(tgt.elts) == 2 and all(isinstance(e, ast.Name) for e in tgt.elts)):
@@ -193,6 +203,14 @@ def rule_descend_prepends(ctx, rid="R6.4"):
     desc = calls.V.methods["descend"]
     cfg = cfg_of(desc)
     r = ctx.rule(rid, "descend prepends path to error.path and schema_path to error.schema_path, each guarded by `is not None`", floor=2)
+    sem = c02._valsem(ctx, "entry_points_eval")
+    if sem is not None:
+        if sem["descend"] is None:
+            r.ok(site(desc) + " [path]", "path is prepended to error.path whenever it is not None (0 and \"\" included)")
+            r.ok(site(desc) + " [schema_path]", "schema_path likewise; every error of iter_errors(instance, subschema) is forwarded")
+        else:
+            r.fail("%s|path-guard" % desc.qual, site(desc), sem["descend"])
+        return r
     pp, psp = desc.params[3], desc.params[4]
     for param, field in ((pp, "path"), (psp, "schema_path")):
         apps = [(n, c) for n in cfg.live for (c, _tg) in calls_at(calls, desc, n)
